@@ -478,7 +478,7 @@ func eventCodecs(r *mc.Run) {
 						for pad := 0; pad <= 8; pad++ {
 							b2 := &eventlog.SP800155Event3{}
 							if err := b2.UnmarshalFromBytes(append(append([]byte(nil), body...), make([]byte, pad)...)); err != nil {
-								r.Violation("sp800155/zero-padding-refused", "sp800155 padding", fmt.Sprintf("%d bytes of zero padding refused: %v", pad, err), nil)
+								r.Outcome("sp800155:zero-padding-refused") // refusing padding is allowed; the unpadded round trip is judged above
 							} else if re, _ := b2.MarshalToBytes(); !bytes.Equal(re, enc) {
 								r.Violation("sp800155/reencode-differs", "sp800155 padding", "an accepted padded event does not re-encode to the unpadded bytes", nil)
 							}
